@@ -228,8 +228,8 @@ theorem rinv_same {st st' : St} (h : RInv st)
   all_goals assumption
 
 
-theorem rinv_applyBegin {st : St} (h : RInv st) : RInv (doApplyBegin st) := by
-  apply rinv_same h <;> (unfold doApplyBegin beginAt ackTo; (repeat' split) <;> rfl)
+theorem rinv_applyBegin (cfg : Cfg) {st : St} (h : RInv st) : RInv (doApplyBegin cfg st) := by
+  apply rinv_same h <;> (unfold doApplyBegin beginAt ignoreMsg ackTo; (repeat' split) <;> rfl)
 
 theorem rinv_applyCommit {st : St} (h : RInv st) : RInv (doApplyCommit st) := by
   apply rinv_same h <;> (unfold doApplyCommit; (repeat' split) <;> rfl)
@@ -534,7 +534,13 @@ theorem rinv_step (cfg : Cfg) {st : St} (e : Ev) (hok : okAt st e) (h : RInv st)
     split
     · split
       · exact h
-      · exact rinv_applyBegin h
+      · exact rinv_applyBegin cfg h
+    · exact h
+  case appendBad =>
+    split
+    · split
+      · exact h
+      · exact rinv_same h rfl rfl rfl rfl rfl rfl
     · exact h
   case applyTake =>
     split
